@@ -581,6 +581,7 @@ pub fn mutate(rng: &mut StdRng, g: &GenStream, how: usize) -> (Vec<u8>, String) 
 pub fn run_c05(prop: &str, seed: u64, nstreams: usize, nsyms: usize, trace_path: Option<&str>, rep: &mut Report) {
     let mut rng = StdRng::seed_from_u64(seed ^ 0x57ea);
     let mut trace: Option<Vec<String>> = trace_path.map(|_| vec![]);
+    early_errors(prop, "c05", seed, rep, &mut trace);
     for i in 0..nstreams {
         let ns = if i % 7 == 0 { nsyms * 4 } else { 1 + rng.gen_range(0..nsyms) };
         let g = gen_valid(&mut rng, ns, i);
@@ -638,9 +639,58 @@ pub fn run_c15(prop: &str, seed: u64, nstreams: usize, nsyms: usize, trace_path:
     }
 }
 
+/// Streams whose FIRST symbols are already an error (copy from an empty window, bad matched literal),
+/// under all three header options, with the header / preamble split over the first writes so that the
+/// failing bytes are still in the header staging buffer when they are decoded.
+pub fn early_errors(prop: &str, mode: &str, seed: u64, rep: &mut Report, trace: &mut Option<Vec<String>>) {
+    let mut rng = StdRng::seed_from_u64(seed ^ 0xea71);
+    let p = Props { lc: 3, lp: 0, pb: 2 };
+    let progs: Vec<Vec<Sym>> = vec![
+        vec![Sym::Match { d: 5, n: 4 }, Sym::Lit { b: 1 }, Sym::Lit { b: 2 }],
+        vec![Sym::Lit { b: 9 }, Sym::Match { d: 7, n: 3 }, Sym::Lit { b: 2 }],
+        vec![Sym::Lit { b: 9 }, Sym::Lit { b: 8 }, Sym::Rep { r: 2, n: 2 }, Sym::Match { d: 200, n: 5 }, Sym::Lit { b: 1 }],
+        vec![Sym::Short, Sym::Lit { b: 7 }],
+    ];
+    for (pi, prog) in progs.iter().enumerate() {
+        // encode with fabricated zeros so that the stream is long enough to have bytes after the failure
+        let mut cs = coding::CS::default();
+        let mut probs = coding::Probs::default();
+        let mut enc = crate::kernel::RangeEnc::new();
+        for s in prog {
+            let d = if cs.valid(s) { cs.decisions(s, p) } else { coding::invalid_decisions(&cs, s, p) };
+            coding::encode_decs(&mut enc, &mut probs, &d);
+            if cs.valid(s) {
+                cs.apply(s);
+            } else {
+                cs.out.push(0);
+            }
+        }
+        for _ in 0..12 {
+            let s = Sym::Lit { b: rng.gen() };
+            let d = cs.decisions(&s, p);
+            coding::encode_decs(&mut enc, &mut probs, &d);
+            cs.apply(&s);
+        }
+        let payload = enc.finish();
+        for (opt, field) in [(Opt::ReadFromHeader, Some(u64::MAX)), (Opt::ReadHeaderButUseProvided { n: Some(40) }, Some(3)), (Opt::UseProvided { n: Some(40) }, None), (Opt::UseProvided { n: None }, None)] {
+            let mut data = lzma_header(p, 4096, field);
+            data.extend_from_slice(&payload);
+            let hl = opt.header_len() + 5;
+            for first in [1usize, 3, hl - 1, hl, hl + 1, hl + 3, 17, 18, 19] {
+                for second in [1usize, 2, 8, 40] {
+                    let cuts = vec![first.min(data.len()), (first + second).min(data.len()), (first + second + 3).min(data.len())];
+                    let c = StreamCase { data_hex: hex(&data), opt, memlimit: None, allow_incomplete: false, cuts, origin: format!("early-error#{}", pi), mode: mode.into(), extra_writes: vec![] };
+                    check_case(&c, prop, rep, trace);
+                }
+            }
+        }
+    }
+}
+
 pub fn run_c16(prop: &str, seed: u64, nstreams: usize, nsyms: usize, trace_path: Option<&str>, rep: &mut Report) {
     let mut rng = StdRng::seed_from_u64(seed ^ 0xc16);
     let mut trace: Option<Vec<String>> = trace_path.map(|_| vec![]);
+    early_errors(prop, "c16", seed, rep, &mut trace);
     for i in 0..nstreams {
         let ns0 = 1 + rng.gen_range(0..nsyms);
         let g = gen_valid(&mut rng, ns0, i);
